@@ -673,7 +673,13 @@ class Engine(
                         )
                         for tag in common_columns
                     )
-                columns_available = {**lhs_payload.columns_available, **rhs_payload.columns_available}
+                # Only take the columns each operand relation actually has: a
+                # payload may offer more logical columns than its relation
+                # declares, and those must not shadow the other operand's.
+                columns_available = {
+                    **{tag: lhs_payload.columns_available[tag] for tag in lhs.columns},
+                    **{tag: rhs_payload.columns_available[tag] for tag in rhs.columns},
+                }
                 if predicate.as_trivial() is not True:
                     on_terms.extend(self.convert_flattened_predicate(predicate, columns_available))
                 on_clause: sqlalchemy.sql.ColumnElement
